@@ -451,13 +451,17 @@ def gen_recursive_group(rng, view, cfg, mod: str, base_index: int) -> list[dict]
     bare = [n >= 2 and rng.random() < 0.35 for _ in range(n)]
     if all(bare):
         bare[rng.randrange(n)] = False
+    shared_more = (rng.choice(names), rng.choice(["list", "dict", "tuplevar", "optional"])) if n >= 2 and rng.random() < 0.3 else None
     for i, nm in enumerate(names):
         nxt = {"k": "ref", "m": mod, "n": names[(i + 1) % n]}
         fields = [{"n": "v", "t": {"k": rng.choice(["int", "str", "int", "date", "uuid"])}}]
         edge = _edge(rng, nxt, "bare" if bare[i] else None)
         f = {"n": "nxt", "t": edge}
         fields.append(f)
-        if rng.random() < 0.3:
+        if shared_more is not None:
+            # every class of the group names the same edge alike (A.more: list[B], B.more: list[B])
+            fields.append({"n": "more", "t": _edge(rng, {"k": "ref", "m": mod, "n": shared_more[0]}, shared_more[1])})
+        elif rng.random() < 0.3:
             other = {"k": "ref", "m": mod, "n": rng.choice(names)}
             fields.append({"n": "more", "t": _edge(rng, other)})
         kind = core.weighted(rng, [(8, "dataclass"), (1, "plain"), (1, "typeddict"), (1, "namedtuple")])
